@@ -18,6 +18,7 @@ pub fn quant_twin(case: &QuantCase, st: &mut Stats) -> Result<bool, Failure> {
     for (step, op) in case.ops.iter().enumerate() {
         let mut inputs: Vec<f32> = vec![];
         match op {
+            QuantOp::ForbidAllLast(_) => {}
             QuantOp::Allow(l) | QuantOp::Forbid(l) | QuantOp::ForbidLast(l) => {
                 if l.iter().any(|n| *n > 11) {
                     big = true;
